@@ -1072,6 +1072,21 @@ fn code_of(o: &Outcome) -> i64 {
     }
 }
 
+/// the statement names a column that no stored column carries (up to case) but that the stored schema's
+/// column-index cache still resolves (left behind by an earlier CHANGE COLUMN)
+fn stale_cache_hit(st: &Stmt, before: &Obs) -> bool {
+    let (tn, cn) = match st {
+        Stmt::DropColumn { tn, cn, .. } | Stmt::ModifyColumn { tn, cn, .. } | Stmt::SetDefault { tn, cn, .. } | Stmt::DropDefault { tn, cn }
+        | Stmt::SetNotNull { tn, cn } | Stmt::DropNotNull { tn, cn } => (tn, cn),
+        Stmt::ChangeColumn { tn, old, .. } => (tn, old),
+        _ => return false,
+    };
+    before.tabs.iter().any(|(k, s, _)| {
+        k.eq_ignore_ascii_case(&format!("public.{}", tn))
+            && s.probes.iter().any(|(p, i)| p == cn && *i >= 0 && s.cols.get(*i as usize).map(|c| !c.name.eq_ignore_ascii_case(cn)).unwrap_or(true))
+    })
+}
+
 fn retained_columns_unchanged(before: &Obs, after: &Obs, st: &Stmt) -> Option<String> {
     // ALTER TABLE touches only the named column: every stored column that exists (by name) before and
     // after keeps its values, the number of rows stays, other tables are untouched
@@ -1233,15 +1248,7 @@ fn run_history(seed: u64, id: u64, thorough: bool, sum: &mut Summary, log: &mut 
                     if let Some(w) = retained_columns_unchanged(&prev, &now, &stmt) {
                         let slug = match &stmt {
                             Stmt::RenameTable { .. } if !ok => "rename-table-not-null-rows-lost",
-                            Stmt::DropColumn { ie: true, cn, tn }
-                                if prev.tabs.iter().any(|(k, s, _)| {
-                                    k.eq_ignore_ascii_case(&format!("public.{}", tn))
-                                        && s.probes.iter().any(|(p, i)| p == cn && *i >= 0)
-                                        && !s.cols.iter().any(|c| c.name.eq_ignore_ascii_case(cn))
-                                }) =>
-                            {
-                                "alter-drop-column-if-exists-stale-renamed-name"
-                            }
+                            other if stale_cache_hit(other, &prev) => "alter-stale-column-cache-resolves-other-column",
                             _ => "retained-data-changed",
                         };
                         findings.push((slug.into(), format!("step {} `{}` ({}): {}", steps.len(), sql, out.tag(), w)));
@@ -1297,6 +1304,10 @@ fn run_history(seed: u64, id: u64, thorough: bool, sum: &mut Summary, log: &mut 
     sum.count(if ci_mode { "mode:case-insensitive" } else { "mode:default" });
     sum.count(&format!("len:{:02}", steps.len() / 5 * 5));
     let had = !findings.is_empty();
+    sum.count(if ci_mode { "profile:case-insensitive" } else if clean { "profile:clean" } else if id % 10 == 9 { "profile:scripted" } else { "profile:mixed" });
+    if clean && had {
+        sum.count("profile:clean-with-findings");
+    }
     // one finding per class and history
     let mut seen = BTreeSet::new();
     for (slug, what) in findings {
@@ -1313,7 +1324,7 @@ fn main() {
     let mut sum = Summary::default();
     sum.nontrivial_rule = "a case is one DDL/DML history (10-30 statements over 3 table names, 4 index names and 5 column names, written with case / quoting / schema-qualification variants) with every statement's result code and the full observation of the four registries after every statement; distinct = distinct statement text of the whole history; non-trivial = at least one statement other than CREATE TABLE succeeded".into();
     let mut log = CaseLog::new(&args);
-    let n_hist: u64 = if args.thorough { 3200 } else { 420 };
+    let n_hist: u64 = if args.thorough { 2400 } else { 420 };
     let nshards: usize = if args.thorough { 64 } else { 16 };
     let mut shard_txt: Vec<Vec<String>> = vec![Vec::new(); nshards];
     let mut with_findings = 0u64;
